@@ -25,12 +25,33 @@ func (s SliceType) RenderGoType() (string, error) {
 }
 
 func (s SliceType) RenderToBaseType(to, from string) (string, error) {
-	return ExecuteTemplate("Slice_RenderToBaseType", TData{
-		"To":   to,
-		"From": from,
+	code, err := s.renderNonNil(from, 0)
+	if err != nil {
+		return "", err
+	}
+	return code + to + " = " + from, nil
+}
 
-		"RenderGoTypeFn": s.RenderGoType,
-	})
+// renderNonNil makes v (a slice of this type) encode as a JSON array at every
+// depth: a nil slice is [], never null. Inner arrays are normalised in a copy,
+// the caller's slices are not modified.
+func (s SliceType) renderNonNil(v string, depth int) (string, error) {
+	gt, err := s.RenderGoType()
+	if err != nil {
+		return "", err
+	}
+	out := fmt.Sprintf("if %s == nil {\n\t%s = %s{}\n}\n", v, v, gt)
+	inner, ok := s.Items.Type.(SliceType)
+	if !ok || s.Items.Ref != nil || s.Items.IsNullable() || s.Items.IsCustom() {
+		return out, nil
+	}
+	cp, i := fmt.Sprintf("vCopy%d", depth), fmt.Sprintf("i%d", depth)
+	body, err := inner.renderNonNil(cp+"["+i+"]", depth+1)
+	if err != nil {
+		return "", err
+	}
+	out += fmt.Sprintf("{\n\t%s := make(%s, len(%s))\n\tcopy(%s, %s)\n\tfor %s := range %s {\n%s\t}\n\t%s = %s\n}\n", cp, gt, v, cp, v, i, cp, body, v, cp)
+	return out, nil
 }
 
 func (s SliceType) RenderFormat(from string) (string, error) {
